@@ -1,7 +1,8 @@
-"""C06 -- every submitted job resolves exactly once, with its own outcome."""
-from checks import poolcommon, poolreal
+"""C06 -- soft time limit is raised once, inside the task that exceeded it."""
+from checks import poolcommon, poolreal, racecommon
 
 
 def main(ctx):
+    racecommon.run(ctx, 'C06')     # the soft-limit branch of the scanner against a result being processed
     poolcommon.run(ctx, 'C06')
     poolreal.run(ctx, 'C06')
